@@ -95,7 +95,7 @@ type FuncContract struct {
 	Where     string
 	Split     *SplitSpec
 	Cases     []Clause // the whole function is verified once per case (extra entry assumption); exhaustiveness is an obligation
-	Trusted   bool // assumed contract on a function of the repository (listed in the evidence)
+	Trusted   bool     // assumed contract on a function of the repository (listed in the evidence)
 }
 
 // SplitSpec: postconditions are proved by exhaustive case split on an integer parameter:
